@@ -40,6 +40,9 @@ def remove_signature(text):
     if not signed:
         return text
     unsigned = signed.groupdict().get('cleartext')
+    if unsigned is None:
+        # a signature block alone, without a signed message
+        return text
     return unsigned
 
 # A re.VERBOSE regular expression to parse a PGP signed message in its parts.
@@ -55,7 +58,7 @@ pgp_signed = re.compile(r"""
 
     (^-{5}BEGIN\ PGP\ SIGNED\ MESSAGE-{5}(?:\r?\n)
        (Hash:\ (?P<hashes>[A-Za-z0-9\-,]+)(?:\r?\n){2})?
-       (?P<cleartext>(.*\r?\n)*(.*(?=\r?\n-{5})))(?:\r?\n)
+       (?P<cleartext>(.*\n)*(.*(?=\r?\n-{5})))(?:\r?\n)
     )?
 
     # Armor header line: capture the variable part of the magic text
@@ -65,7 +68,7 @@ pgp_signed = re.compile(r"""
     # Try to capture all the headers into one capture group.
     # If this doesn't match, m['headers'] will be None
 
-    (?P<headers>(^.+:\ .+(?:\r?\n))+)?(?:\r?\n)?
+    (?P<headers>(^(?=.+:\ .).+\n)+)?(?:\r?\n)?
 
     # capture all lines of the body, up to 76 characters long, including the
     # newline, and the pad character(s)
